@@ -18,6 +18,9 @@ const (
 	// SinkShortOnce: write number K takes half of its bytes and reports io.ErrShortWrite (a
 	// frame that is full); every other write, later ones included, succeeds
 	SinkShortOnce = 5
+	// SinkErrOnce: write number K is refused (0, ErrSink); every other write, later ones
+	// included, succeeds (a one-shot fault, a bounded buffer that is drained in time)
+	SinkErrOnce = 6
 )
 
 // ErrSinkPanic is the value a panicking sink panics with.
@@ -48,6 +51,11 @@ func (s *SimSink) Write(p []byte) (int, error) {
 	idx := s.Calls
 	s.Calls++
 	switch s.Plan {
+	case SinkErrOnce:
+		if idx == s.K {
+			s.fail("sink_err_once")
+			return 0, ErrSink
+		}
 	case SinkShortOnce:
 		if idx == s.K {
 			n := len(p) / 2
